@@ -46,15 +46,65 @@ class Lazy:
 
 
 # ---------------------------------------------------------------------------------------------------------------
+def hard_check(assertions, timeout_s, want_model=False):
+    """z3 on a list of assertions in a child process that is killed at the deadline (z3's own timeout is not always honoured on
+    the large linear contexts of the multiply kernels: one in-process query was observed to run for >15 minutes).
+    Returns ('unsat'|'sat'|'unknown', model dict or None)."""
+    import os
+    import subprocess
+    import sys
+    import tempfile
+    s = z3.Solver()
+    s.add(assertions)
+    fd, path = tempfile.mkstemp(suffix=".smt2", dir=os.environ.get("VERIF_WORK") or None)
+    with os.fdopen(fd, "w") as f:
+        f.write(s.to_smt2())
+    prog = ("import z3,sys\ns=z3.Solver()\ns.set('timeout',%d)\ns.from_file(sys.argv[1])\nr=s.check()\nprint(r)\n"
+            "if r==z3.sat and %r:\n m=s.model()\n for d in m.decls():\n  print(d.name(), m[d])\n" % (int(timeout_s * 1000), bool(want_model)))
+    try:
+        out = subprocess.run([sys.executable, "-c", prog, path], capture_output=True, text=True, timeout=timeout_s + 10).stdout.split("\n")
+    except subprocess.TimeoutExpired:
+        out = ["unknown"]
+    finally:
+        os.unlink(path)
+    res = out[0].strip() if out and out[0].strip() in ("sat", "unsat") else "unknown"
+    model = None
+    if res == "sat" and want_model:
+        model = {}
+        for line in out[1:]:
+            parts = line.split()
+            if len(parts) == 2 and parts[1].lstrip("-").isdigit():
+                model[parts[0]] = int(parts[1])
+    return res, model
+
+
 class Lin32(LinCtx):
     """D-LIN with (i) exact division for wraps of forms divisible by the modulus, (ii) elimination of variables fixed by
-    solver-proved facts (so that identities become comparisons of normal forms), (iii) splitting a form at a bit position"""
+    solver-proved facts (so that identities become comparisons of normal forms), (iii) splitting a form at a bit position,
+    (iv) *local* proofs: a fact about a form is first attempted from the defining constraints of the quotient variables within
+    a few definition steps of it (a subset of the recorded constraints, hence sound), in a small fresh solver; the full
+    constraint set is only used as a last resort and then in a child process with a hard deadline."""
+    BIG = 150         # contexts with more variables than this never run z3 in-process on the full constraint set
 
     def __init__(self, timeout_ms=20000):
         LinCtx.__init__(self, timeout_ms)
         self.subst = {}
+        self.defs = {}            # quotient variable -> (form before the wrap, bits)
+        self.range_facts = []     # (form, bits): 0 <= form < 2^bits, left behind by eliminated quotient variables
+        self.facts = []           # (frozenset of variables, z3 formula): assumptions / implied bounds
         self.div_facts = 0
         self.struct_splits = 0
+        self.local_proofs = 0
+        self.full_proofs = 0
+        self.full_budget = 6      # how many times one run may fall back to the full constraint set for a dropped carry
+
+    def assume(self, formula, forms):
+        """record an assumption over the given forms (also usable by local proofs)"""
+        self.solver.add(formula)
+        vs = set()
+        for f in forms:
+            vs |= set(f.t)
+        self.facts.append((frozenset(vs), formula))
 
     def resolve(self, a):
         if not self.subst or not a.t:
@@ -84,6 +134,9 @@ class Lin32(LinCtx):
         rest = {u: k for u, k in f.t.items() if u != v}
         if f.c % g == 0 and all(k % g == 0 for k in rest.values()):
             self.subst[v] = self.mk(-f.c // g, {u: -k // g for u, k in rest.items()}, self.vlo[v], self.vhi[v])
+            if v in self.defs:
+                a, bits = self.defs[v]
+                self.range_facts.append((self.resolve(self.add(a, self.mk(0, {v: -(1 << bits)}))), bits))
 
     def wrap(self, a, bits, what="wrap"):
         a = self.resolve(a)
@@ -94,9 +147,13 @@ class Lin32(LinCtx):
             self.div_facts += 1
             if q.t:
                 zq = self.z(q)
-                self.solver.add(zq >= q.lo, zq <= q.hi)      # implied by the bounds of the operands; stated to help the solver
+                self.assume(z3.And(zq >= q.lo, zq <= q.hi), [q])      # implied by the bounds of the operands; stated to help the solver
             return self.const(0), q
-        return LinCtx.wrap(self, a, bits, what)
+        n0 = len(self.names)
+        r, q = LinCtx.wrap(self, a, bits, what)
+        if len(self.names) == n0 + 1:
+            self.defs[n0] = (a, bits)
+        return r, q
 
     def split(self, a, n):
         """(a mod 2^n, a div 2^n) for a form known to be >= 0"""
@@ -115,6 +172,91 @@ class Lin32(LinCtx):
             self.struct_splits += 1
             return lo, self.mk(a.c // m, hi_t, a.lo // m, a.hi // m)
         return self.wrap(a, n, "h")
+
+    # ---- proofs
+    def local_zero(self, f, depths=(1, 2, 3), timeout_ms=4000):
+        """True if f == 0 follows from the constraints within `depth` definition steps of f's variables"""
+        import time
+        f = self.resolve(f)
+        if f.is_const():
+            return f.c == 0
+        t0 = time.time()
+        try:
+            for d in depths:
+                S = set(f.t)
+                frontier = set(S)
+                done = set()
+                zs = []
+                for _ in range(d):
+                    new = set()
+                    for v in frontier:
+                        if v in self.defs and v not in done:
+                            done.add(v)
+                            a, bits = self.defs[v]
+                            form = self.resolve(a)
+                            e = self.z(form) - (1 << bits) * self.zv[v]
+                            zs += [e >= 0, e < (1 << bits)]
+                            new |= set(form.t) - S
+                    S |= new
+                    frontier = new
+                    if not new:
+                        break
+                for k, (form, bits) in enumerate(self.range_facts):
+                    form = self.resolve(form)
+                    if form.t and set(form.t) <= S:
+                        e = self.z(form)
+                        zs += [e >= 0, e < (1 << bits)]
+                for vs, formula in self.facts:
+                    if vs <= S:
+                        zs.append(formula)
+                for v in S:
+                    zs += [self.zv[v] >= self.vlo[v], self.zv[v] <= self.vhi[v]]
+                s = z3.Solver()
+                s.set("timeout", timeout_ms)
+                s.add(zs)
+                s.add(self.z(f) != 0)
+                self.queries += 1
+                if s.check() == z3.unsat:
+                    self.local_proofs += 1
+                    return True
+            return None
+        finally:
+            self.solver_time += time.time() - t0
+
+    def prove(self, cond, label="", timeout_ms=None):
+        if len(self.names) <= self.BIG:
+            return LinCtx.prove(self, cond, label, timeout_ms)
+        import time
+        t0 = time.time()
+        self.queries += 1
+        self.full_proofs += 1
+        r, _ = hard_check(list(self.solver.assertions()) + [z3.Not(cond)], (timeout_ms or self.timeout_ms) / 1000.0)
+        self.solver_time += time.time() - t0
+        return True if r == "unsat" else (False if r == "sat" else None)
+
+    def model_for(self, cond):
+        if len(self.names) <= self.BIG:
+            return LinCtx.model_for(self, cond)
+        r, m = hard_check(list(self.solver.assertions()) + [cond], self.timeout_ms / 1000.0, True)
+        if r != "sat":
+            return None
+        return {n: m.get(n, 0) for n in self.names}
+
+    def prove_zero(self, f, label="", timeout_ms=None):
+        f = self.resolve(f)
+        if f.is_const():
+            return f.c == 0
+        if f.lo == 0 and f.hi == 0:
+            return True
+        if f.lo > 0 or f.hi < 0:
+            return False
+        if self.local_zero(f):
+            return True
+        if len(self.names) > self.BIG:
+            if self.full_budget <= 0:
+                return None
+            self.full_budget -= 1
+        return self.prove(self.z(f) == 0, label, timeout_ms)
 
 
 # ---------------------------------------------------------------------------------------------------------------
